@@ -1,10 +1,18 @@
 (* Evaluation of stream-engine cases (streaming_body / BodyWriter / chunker). *)
 From Coq Require Import String.
-From HS Require Import Lib.Base Lib.Bytes Lib.Dec Model.Negot Model.Builder Model.Chunker Run.Val.
+From HS Require Import Lib.Base Lib.Bytes Lib.Dec Model.Negot Model.Builder Model.Chunker Model.GzWriter Run.Val.
 
 (* s_sg: what the implementation's own should_gzip answered for s_ae (absent in old corpus cases) *)
+(* what the gzip encoder handed to its sink, call by call, for the calls BodyWriter made (obtained by the
+   harness from a shadow encoder of the same construction): one entry per executed operation *)
+Inductive gzent :=
+| GzW (n : N) (em : bytes)                    (* one GzEncoder::write call: accepted n, emitted em *)
+| GzWA (calls : list (N * bytes)) (len : N)   (* write_all: the write calls it made *)
+| GzF (e1 e2 : bytes)                         (* flush: the two GzEncoder::flush calls *)
+| GzD (em : bytes)                            (* drop: try_finish *)
+| GzA | GzP (w : N) | GzR.                    (* abort, poll, drop of the body *)
 Record stinput := { s_cap : N; s_level : N; s_meth : bytes; s_ae : option bytes; s_parts : bool; s_ops : list cop;
-                    s_sg : option bool }.
+                    s_sg : option bool; s_gz : list gzent }.
 
 Definition dec_cop (v : val) : option cop :=
   match v with
@@ -33,14 +41,28 @@ Definition apply_call (b : builder) (c : N * N) : builder :=
 Definition effective (pre : list (N * N)) (cap level : N) : builder :=
   fold_left apply_call (pre ++ [(0, cap); (1, level)])
     {| b_chunk_size := 4096; b_gzip_level := 6; b_should_gzip := false; b_body_needed := true |}.
+Definition dec_gzent (v : val) : option gzent :=
+  match v with
+  | VL [VN 0; VN n; VB em] => Some (GzW n em)
+  | VL [VN 1; VL calls; VN len] =>
+      match vall (fun c => match c with VL [VN n; VB em] => Some (n, em) | _ => None end) calls with
+      | Some l => Some (GzWA l len) | None => None end
+  | VL [VN 2; VB e1; VB e2] => Some (GzF e1 e2)
+  | VL [VN 4; VB em] => Some (GzD em)
+  | VL [VN 3] => Some GzA
+  | VL [VN 5; VN w] => Some (GzP w)
+  | VL [VN 6] => Some GzR
+  | _ => None
+  end.
 Definition dec_stinput (v : val) : option stinput :=
   match v with
   | VL (VN cap :: VN level :: VB m :: ae :: VN p :: ops :: rest) =>
-      let pre := match rest with [_; VL l] => match vlist dec_call (VL l) with Some c => c | None => [] end | _ => [] end in
+      let pre := match rest with _ :: VL l :: _ => match vlist dec_call (VL l) with Some c => c | None => [] end | _ => [] end in
+      let gzs := match rest with [_; _; VL l] => match vall dec_gzent l with Some g => g | None => [] end | _ => [] end in
       let b := effective pre cap level in
       match vopt vbytes ae, vlist dec_cop ops with
       | Some ae, Some ops => Some {| s_cap := b_chunk_size b; s_level := b_gzip_level b; s_meth := m; s_ae := ae; s_parts := negb (p =? 0); s_ops := ops;
-                                    s_sg := match rest with VN 0 :: _ => Some false | VN 1 :: _ => Some true | _ => None end |}
+                                    s_sg := match rest with VN 0 :: _ => Some false | VN 1 :: _ => Some true | _ => None end; s_gz := gzs |}
       | _, _ => None
       end
   | _ => None
@@ -404,6 +426,46 @@ Fixpoint disconnect_walk (raw : bool) (cap buffered : N) (gone failed : bool) (l
       end
   end.
 
+(* ---- the Gzipped BodyWriter (Model/GzWriter.v) run with the observed emissions as its encoder ---- *)
+Definition encq := list (bytes * N).
+Definition q_write (e : encq) (_ : bytes) : encq * bytes * N := match e with (em, n) :: t => (t, em, n) | [] => ([], [], 0) end.
+Definition q_flush (e : encq) : encq * bytes := match e with (em, _) :: t => (t, em) | [] => ([], []) end.
+Definition q_finish (e : encq) : bytes := match e with (em, _) :: _ => em | [] => [] end.
+Definition qstep := gstep encq q_write q_flush q_finish.
+Definition refill (g : gin encq) (q : encq) : gin encq := match g with GGz _ _ => GGz encq q | GOff _ => GOff encq end.
+(* std's write_all over BodyWriter::write: one write call per recorded call, until the data is used up *)
+Fixpoint gz_write_all (s : cstate) (g : gin encq) (calls : list (N * bytes)) (left : N) : cstate * gin encq * copres :=
+  match calls with
+  | [] => (s, g, RIo (left =? 0))
+  | (n, em) :: t =>
+      let '(s1, g1, r, _, _) := qstep s (refill g [(em, n)]) (OWrite []) in
+      match r with
+      | RWrite (Some k) => if k =? 0 then (s1, g1, RIo false) else gz_write_all s1 g1 t (left - k)
+      | _ => (s1, g1, RIo false)
+      end
+  end.
+Fixpoint gz_model_results (s : cstate) (g : gin encq) (es : list gzent) : list val :=
+  match es with
+  | [] => []
+  | e :: t =>
+      let '(s1, g1, r) :=
+        match e with
+        | GzW n em => let '(s1, g1, r, _, _) := qstep s (refill g [(em, n)]) (OWrite []) in (s1, g1, r)
+        | GzWA calls len =>
+            match g, calls with
+            | GOff _, _ => let '(s1, r, _) := cstep s (OWriteAll (repeat 0 (N.to_nat (N.min len 1)))) in (s1, g, r)
+            | _, _ => gz_write_all s g calls len
+            end
+        | GzF e1 e2 => let '(s1, g1, r, _, _) := qstep s (refill g [(e1, 0); (e2, 0)]) OFlush in (s1, g1, r)
+        | GzD em => let '(s1, g1, r, _, _) := qstep s (refill g [(em, 0)]) ODropWriter in (s1, g1, r)
+        | GzA => let '(s1, g1, r, _, _) := qstep s g OAbort in (s1, g1, r)
+        | GzP w => let '(s1, g1, r, _, _) := qstep s g (OPoll w) in (s1, g1, r)
+        | GzR => let '(s1, g1, r, _, _) := qstep s g ODropReader in (s1, g1, r)
+        end in
+      of_copres r :: gz_model_results s1 g1 t
+  end.
+Definition F_S_GZ := bs "gz.results".
+
 Definition run_stream (v : val) : val :=
   match v with
   | VL [inp; obs] =>
@@ -424,7 +486,15 @@ Definition run_stream (v : val) : val :=
                 ++ cmp_field F_S_WRITER (of_bool (has_writer i)) ow
                 ++ cmp_field F_S_HINT0 mh0 oh0 ++ cmp_field F_S_EOS0 me0 oe0 in
               let mres := model_results s0 (s_ops i) in
-              let model_part := if gz then [] else firstn 12 (cmp_results 0 0 0 mres ores)
+              let gz_part :=
+                if gz && has_writer i then
+                  match s_gz i with
+                  | [] => []                       (* cases recorded before the shadow encoder existed *)
+                  | es => firstn 3 (cmp_field F_S_GZ (VL (gz_model_results s0 (GGz encq []) es))
+                                              (VL (map (fun o => match o with VL (r :: _) => r | x => x end) ores)))
+                  end
+                else [] in
+              let model_part := gz_part ++ if gz then [] else firstn 12 (cmp_results 0 0 0 mres ores)
                                                     ++ firstn 12 (cmp_producer 0 (s_ops i) mres ores)
                                                     ++ cmp_received s0 (s_ops i) mres ores in
               let oracle :=
